@@ -9,7 +9,7 @@ NOTE = ("Trusted: Lean 4.33 kernel; axioms propext, Classical.choice, Quot.sound
         "the statements in lean/BS/Spec.lean and lean/BS/Props; the hand-written model lean/BS/Impl is tied to /repo by the differential correspondence "
         "(bsrun drives the real library, the compiled Lean driver runs the model and the spec on the same op scripts, lib/judge.py compares) — that tie is sampling, not proof — "
         "by constants regenerated from the sources (tools/extract_consts.py), and for the decision/arithmetic core (seek.rs search areas and bounds, estimate.rs, "
-        "index.rs line_pos/search bounds/in_gap/update, data.rs len/range/line_pos and the write path push_data, meta.rs write/read, push_line, the cache's process and catch-up, the open-time tail repair FileWithInlineMeta::new: 39 functions and constants) by TRANSLATION: tools/rs2lean.py rewrites "
+        "index.rs line_pos/search bounds/in_gap/update, data.rs len/range/line_pos and the write path push_data, meta.rs write/read, push_line, the cache's process and catch-up, the open-time tail repair FileWithInlineMeta::new, n_lines_between: 40 functions and constants) by TRANSLATION: tools/rs2lean.py rewrites "
         "those Rust functions to Lean on every run (BS/Generated/Core.lean, checked arithmetic, same control flow) and BS/Proofs/GenTie.lean proves each equal to the model's "
         "function; trusted there: the translator (a syntactic parser/printer) and the std vocabulary in BS/Impl/GenPrelude.lean. Modelled, not verified: OS file semantics, Rust std "
         "(binary_search, chunks_exact, str::find), no I/O errors, 64-bit usize, overflow-checked profile. See DESIGN.md §10.")
